@@ -48,6 +48,30 @@ CONTRACTS = {
     "AtLeast.evaluate_propositions": {"props": ["C03"], "why": "{x.id: out(x.bounds)} over flatten() of the assumed model"},
     "AtLeast.reduce": {"props": ["C08"], "split": "sign",
                        "why": "R1 own constant; R2 children reduced; R3 kernel; R4 constant result; R5 threshold minus sign*constants"},
+    # ---- polyhedron bridge (C01) and solver bridge (C15) -----------------------------------------------------
+    "AtLeast._to_pyrs_theory": {"props": ["C01", "C15"], "split": "sign",
+                                "why": "one statement per flattened node: (index, bounds, AtLeastPy(child indices, bias=-value, sign))"},
+    "AtLeast.to_ge_polyhedron": {"props": ["C01", "C14", "C15"], "split": "sign",
+                                 "why": "same statements; result [b | A] with support variable first and column j+1 = node of rust column j"},
+    "AtLeast.solve": {"props": ["C15"], "why": "objective over A-columns default 0; zip(A.variables, solution); virtual filter; None -> {}"},
+    # ---- serialisation (C16 / C17) ------------------------------------------------------------------------------
+    "AtLeast.to_json": {"props": ["C16"], "why": "type, propositions, value; id iff explicit; sign iff not the constructor default"},
+    "AtLeast.from_json": {"props": ["C16"], "why": "value default 1; children through the dispatcher; id; sign"},
+    "AtMost.to_json": {"props": ["C16"], "why": "value written as -1*stored value (inverse of the constructor)"},
+    "AtMost.from_json": {"props": ["C16"], "why": "reads value/propositions/id through AtMost()"},
+    "All.to_json": {"props": ["C16"], "why": "no value (re-derived from the children)"},
+    "All.from_json": {"props": ["C16"], "why": "children + id through All()"},
+    "Any.to_json": {"props": ["C16"], "why": "no value (constant 1)"},
+    "Any.from_json": {"props": ["C16"], "why": "children + id through Any()"},
+    "Imply.to_json": {"props": ["C16"], "why": "condition written re-negated, consequence as is"},
+    "Imply.from_json": {"props": ["C16"], "why": "condition/consequence/id through Imply()"},
+    "Xor.to_json": {"props": ["C16"], "why": "children of the first (at-least-one) sub proposition"},
+    "Xor.from_json": {"props": ["C16"], "why": "cls(*children, variable=id)"},
+    "XNor.to_json": {"props": ["C16"], "why": "children of the re-negated first sub proposition"},
+    "XNor.from_json": {"props": ["C16"], "why": "children + id through XNor()"},
+    "Not.from_json": {"props": ["C16", "C04"], "why": "Not(from_json(proposition))"},
+    "AtLeast.to_b64": {"props": ["C17"], "why": "pickle.dumps(self) -> gzip -> base64"},
+    "from_b64": {"props": ["C17"], "why": "inverse pipeline"},
 }
 
 
@@ -162,3 +186,251 @@ class AtLeast:
         return AtLeast(self.value - self.sign * fixed,                                             # R5
                        [c for c in children if c.bounds.constant is None],
                        variable=puan.variable(id=self.id, bounds=new_bounds), sign=self.sign)
+
+
+    # ---------------------------------------------------------------- C01
+    def _to_pyrs_theory(self):
+        nodes = dict((x.id, x) for x in self.flatten())             # id -> definition
+        index = dict(zip((x.id for x in nodes.values()), zip(range(len(nodes)), nodes.values())))   # id -> (statement index, node)
+        return pr.TheoryPy([
+            pr.StatementPy(
+                index[x.id][0],
+                (index[x.id][1].bounds.lower, index[x.id][1].bounds.upper),
+                pr.AtLeastPy([index[y.id][0] for y in x.propositions], bias=-x.value,
+                             sign=pr.SignPy.Positive if x.sign == 1 else pr.SignPy.Negative)
+                if not issubclass(x.__class__, puan.variable) else None,
+            ) for x in nodes.values()
+        ]), index
+
+    def to_ge_polyhedron(self, active=False, reduced=False):
+        nodes = dict((x.id, x) for x in self.flatten())
+        index = dict(zip((x.id for x in nodes.values()), zip(range(len(nodes)), nodes.values())))   # id -> (statement index, node)
+        rs = pr.TheoryPy([
+            pr.StatementPy(
+                index[x.id][0],
+                (index[x.id][1].bounds.lower, index[x.id][1].bounds.upper),
+                pr.AtLeastPy([index[y.id][0] for y in x.propositions], bias=-x.value,
+                             sign=pr.SignPy.Positive if x.sign == 1 else pr.SignPy.Negative)
+                if not issubclass(x.__class__, puan.variable) else None,
+            ) for x in nodes.values()
+        ]).to_ge_polyhedron(active, reduced)
+        by_index = dict(index.values())                                 # statement index -> node
+        return pnd.ge_polyhedron(
+            np.hstack((np.array(rs.b).reshape(-1, 1), np.array(np.array_split(rs.a.val, rs.a.nrows)))),
+            variables=[puan.variable.support_vector_variable()] + [by_index.get(v.id) for v in rs.variables],
+        )
+
+    # ---------------------------------------------------------------- C15
+    def solve(self, objectives, solver=None, try_reduce_before=False, include_virtual_variables=False):
+        if solver is None:
+            theory, index = self._to_pyrs_theory()
+            by_index = dict(index.values())
+            return itertools.starmap(
+                lambda solution, objective_value, status_code: (
+                    dict(itertools.starmap(
+                        lambda k, v: (by_index[k].id, v),
+                        (kv for kv in solution.items()
+                         if (True if issubclass(by_index[kv[0]].__class__, puan.variable)
+                             else (include_virtual_variables if by_index.get(kv[0]).generated_id else True))))),
+                    objective_value, status_code),
+                theory.solve([dict(zip((index[k][0] for k in objective), objective.values())) for objective in objectives],
+                             try_reduce_before),
+            )
+        else:
+            polyhedron = self.to_ge_polyhedron(active=True, reduced=try_reduce_before)
+            return itertools.starmap(
+                lambda solution, objective_value, status_code: (
+                    dict((vs[0].id, vs[1]) for vs in zip(polyhedron.A.variables, solution)
+                         if (True if issubclass(vs[0].__class__, puan.variable)
+                             else (include_virtual_variables if vs[0].generated_id else True)))
+                    if solution is not None else {},
+                    objective_value, status_code),
+                solver(polyhedron, [polyhedron.A.construct(objective, lambda x: 0) for objective in objectives]),
+            )
+
+    # ---------------------------------------------------------------- C16 / C17
+    def to_json(self):
+        d = {'type': self.__class__.__name__,
+             'propositions': [p.to_json() for p in self.propositions],
+             'value': self.value}
+        if not self.generated_id:
+            d['id'] = self.id
+        if self.sign != (1 if self.value > 0 else -1):
+            d['sign'] = int(self.sign)
+        return d
+
+    @staticmethod
+    def from_json(data, class_map):
+        return AtLeast(value=data.get('value', 1),
+                       propositions=[from_json(p, class_map=class_map) for p in data.get('propositions', [])],
+                       variable=data.get('id', None),
+                       sign=data.get('sign', None))
+
+    def to_b64(self, str_decoding='utf8'):
+        return base64.b64encode(gzip.compress(pickle.dumps(self, protocol=pickle.HIGHEST_PROTOCOL), mtime=0)).decode(str_decoding)
+
+
+class AtMost:
+    def __init__(self, value, propositions, variable=None):
+        AtLeast.__init__(self, value=-value, propositions=propositions, variable=variable, sign=-1)
+
+    @staticmethod
+    def from_json(data, class_map):
+        return AtMost(value=data.get('value', 1),
+                      propositions=[from_json(p, class_map=class_map) for p in data.get('propositions', [])],
+                      variable=data.get('id', None))
+
+    def to_json(self):
+        d = AtLeast.to_json(self)
+        d['value'] = -self.value
+        return d
+
+
+class All:
+    def __init__(self, *propositions, variable=None):
+        AtLeast.__init__(self, value=len(set(propositions)), propositions=propositions, variable=variable)
+
+    @staticmethod
+    def from_json(data, class_map):
+        return All(*[from_json(p, class_map=class_map) for p in data.get('propositions', [])], variable=data.get('id', None))
+
+    def to_json(self):
+        d = AtLeast.to_json(self)
+        del d['value']
+        d['propositions'] = [p.to_json() for p in self.propositions]
+        return d
+
+
+class Any:
+    def __init__(self, *propositions, variable=None):
+        AtLeast.__init__(self, value=1, propositions=propositions, variable=variable)
+
+    @staticmethod
+    def from_json(data, class_map):
+        return Any(*[from_json(p, class_map=class_map) for p in data.get('propositions', [])], variable=data.get('id', None))
+
+    def to_json(self):
+        d = AtLeast.to_json(self)
+        del d['value']
+        d['propositions'] = [p.to_json() for p in self.propositions]
+        return d
+
+
+class Imply:
+    def __init__(self, condition, consequence, variable=None):
+        if type(condition) == str or issubclass(condition.__class__, puan.variable):
+            condition = All(condition)
+        self.condition = condition.negate()
+        self.consequence = consequence
+        Any.__init__(self, self.condition, self.consequence, variable=variable)
+
+    @staticmethod
+    def from_json(data, class_map):
+        if not 'consequence' in data:
+            raise Exception()
+        if 'condition' in data and 'consequence' in data:
+            return Imply(from_json(data.get('condition'), class_map), from_json(data.get('consequence'), class_map),
+                         variable=data.get('id', None))
+        else:
+            return from_json(data.get('consequence'), class_map)
+
+    def to_json(self):
+        d = {'type': self.__class__.__name__,
+             'condition': self.condition.negate().to_json(),
+             'consequence': self.consequence.to_json()}
+        if not self.generated_id:
+            d['id'] = self.id
+        return d
+
+    @staticmethod
+    def from_cicJE(data, id_ident="id", cmp2prop=None):
+        rule_type_map = {
+            "REQUIRES_ALL": lambda x, id: All(*x, variable=id),
+            "REQUIRES_ANY": lambda x, id: Any(*x, variable=id),
+            "ONE_OR_NONE": lambda x, id: AtMost(value=1, propositions=x, variable=id),
+            "FORBIDS_ALL": lambda x, id: Any(*x, variable=id).negate(),
+            "REQUIRES_EXCLUSIVELY": lambda x, id: Xor(*x, variable=id),
+        }
+        if cmp2prop is None:
+            cmp2prop = lambda x: puan.variable(id=x[id_ident], bounds=[(0, 1), (puan.default_min_int, puan.default_max_int)]["dtype" in x and x['type'] == "int"])
+        relation_fn = lambda x: [Any, All][x.get("relation", "ALL") == "ALL"]
+        consequence = rule_type_map[data.get('consequence', {}).get("ruleType")](
+            map(cmp2prop, data.get('consequence', {}).get('components')),
+            data.get("consequence", {}).get("id", None))
+        if "condition" in data:
+            outer = relation_fn(data['condition'])
+            inner = [relation_fn(x)(*map(cmp2prop, x.get('components', [])), variable=x.get("id", None))
+                     for x in data['condition'].get("subConditions", [])]
+            if len(inner) > 0:
+                return Imply(condition=outer(*inner, variable=data.get('condition', {}).get("id", None)) if len(inner) > 1 else inner[0],
+                             consequence=consequence, variable=data.get("id", None))
+            else:
+                return consequence
+        else:
+            return consequence
+
+
+class Xor:
+    def __init__(self, *propositions, variable=None):
+        All.__init__(self, AtLeast(value=1, propositions=propositions), AtMost(value=1, propositions=propositions), variable=variable)
+
+    @classmethod
+    def from_json(cls, data, class_map):
+        return cls(*[from_json(p, class_map=class_map) for p in data.get('propositions', [])], variable=data.get('id', None))
+
+    def to_json(self):
+        d = {'type': self.__class__.__name__,
+             'propositions': [p.to_json() for p in self.propositions[0].propositions] if len(self.propositions) > 0 else []}
+        if not self.generated_id:
+            d['id'] = self.id
+        return d
+
+
+class Not:
+    def __new__(self, proposition):
+        return (All(proposition) if type(proposition) == str or issubclass(proposition.__class__, puan.variable) else proposition).negate()
+
+    @staticmethod
+    def from_json(data, class_map):
+        if not 'proposition' in data:
+            raise Exception()
+        return Not(from_json(data['proposition'], class_map=class_map))
+
+
+class XNor:
+    def __init__(self, *propositions, variable=None):
+        Any.__init__(self, AtLeast(value=1, propositions=propositions).negate(), AtMost(value=1, propositions=propositions).negate(),
+                     variable=variable)
+
+    @staticmethod
+    def from_json(data, class_map):
+        return XNor(*[from_json(p, class_map=class_map) for p in data.get('propositions', [])], variable=data.get('id', None))
+
+    def to_json(self):
+        d = {'type': self.__class__.__name__,
+             'propositions': [p.to_json() for p in self.propositions[0].negate().propositions] if len(self.propositions) > 0 else []}
+        if not self.generated_id:
+            d['id'] = self.id
+        return d
+
+
+def from_json(data, class_map=[puan.variable, AtLeast, AtMost, All, Any, Xor, ExactlyOne, Not, XNor, Imply]):
+    classes = {c.__name__: c for c in class_map}
+    if 'type' not in data:
+        if 'propositions' in data:
+            return classes["AtLeast"].from_json(data, class_map)
+        else:
+            return classes["variable"].from_json(data, class_map)
+    elif data['type'] in ["Proposition", "Variable"]:
+        return classes["variable"].from_json(data, class_map)
+    elif data['type'] in classes:
+        return classes[data['type']].from_json(data, class_map)
+    else:
+        raise Exception()
+
+
+def from_b64(base64_str):
+    try:
+        return pickle.loads(gzip.decompress(base64.b64decode(base64_str.encode())))
+    except:
+        raise Exception()
